@@ -559,6 +559,100 @@ def run_case(ctx, k):
         h.close()
 
 
+def abandoned_emit_case(ctx, k):
+    """asyncio: the coroutine that awaits emit() is cancelled - by the
+    application, or by asyncio.wait_for() around it - while the send to one
+    recipient is still in progress (a slow transport).  The emit has been
+    issued: every addressed member still receives the event exactly once,
+    nobody else does."""
+    import asyncio
+    from vlib import drive as D
+    rng = ctx.case_rng(4 * 10 ** 7 + k)
+    mode = rng.choice(['wait_for', 'cancel'])
+    binary = rng.random() < 0.4
+    n = rng.choice([2, 3, 4])
+    d = D.AsyncDrive(serializer=rng.choice(['default', 'msgpack']))
+    try:
+        d.on('connect', lambda sid, env, auth=None: None, '/')
+        T = []
+        for i in range(n + 1):
+            t = d.open()
+            t.connect('/')
+            T.append(t)
+        for t in T[:n]:
+            d.api('enter_room', t.sids['/'], 'room', namespace='/')
+        for t in T:
+            t.drain()
+        slow = {T[i].eio_sid for i in rng.sample(range(n), rng.randint(
+            1, n - 1))}
+        orig = d.eio.send_packet
+
+        locks = {}
+        delayed = set()
+
+        async def send_packet(eio_sid, pkt):
+            if eio_sid not in slow:
+                return await orig(eio_sid, pkt)
+            # a slow transport: writes complete late, in the order issued
+            lock = locks.setdefault(eio_sid, asyncio.Lock())
+            async with lock:
+                if eio_sid not in delayed:
+                    delayed.add(eio_sid)
+                    await asyncio.sleep(5)      # virtual seconds
+                return await orig(eio_sid, pkt)
+        d.eio.send_packet = send_packet
+        data = {'n': k, 'b': [b'one', b'two']} if binary else {'n': k}
+        out = {}
+
+        async def go():
+            if mode == 'wait_for':
+                try:
+                    await asyncio.wait_for(d.sio.emit(
+                        'tok1', data, to='room', namespace='/'), 1)
+                    out['emit'] = 'returned'
+                except asyncio.TimeoutError:
+                    out['emit'] = 'timed out'
+            else:
+                task = asyncio.ensure_future(d.sio.emit(
+                    'tok1', data, to='room', namespace='/'))
+                await asyncio.sleep(1)
+                task.cancel()
+                try:
+                    await task
+                    out['emit'] = 'returned'
+                except asyncio.CancelledError:
+                    out['emit'] = 'cancelled'
+            await asyncio.sleep(20)
+        d.run(go())
+        del d.eio.__dict__['send_packet']
+        got = []
+        for t in T:
+            t.drain()
+            got.append(len([p for p in t.packets
+                            if p['type'] in (R.EVENT, R.BINARY_EVENT) and
+                            p['data'][0] == 'tok1']))
+        ctx.count('abandoned_emits_judged')
+        w = {'part': 'abandoned_emit', 'case_index': k, 'mode': mode,
+             'binary': binary, 'members': n, 'slow_members': len(slow),
+             'emit_outcome': out.get('emit'), 'deliveries': got,
+             'undecodable': [e[1][:100] for t in T for e in t.decode_errors]}
+        if w['undecodable'] or d.errors():
+            w['errors'] = [e.get('exc') for e in d.errors()[:3]]
+            ctx.violation(None, 'an emit whose awaiting coroutine was '
+                          'abandoned (%s): errors / undecodable frames' %
+                          mode, w)
+        elif got != [1] * n + [0]:
+            ctx.violation(None, 'emit(to=room) whose awaiting coroutine was '
+                          'abandoned (%s) while the send to %d of %d members '
+                          'was in progress: deliveries per member %r (the '
+                          'last client is not a member)' % (
+                              mode, len(slow), n, got), w)
+        else:
+            ctx.case(('abandoned_emit', mode, binary, n, len(slow)), None)
+    finally:
+        d.close()
+
+
 def run(ctx):
     ctx.rule = ('online-generated histories (20-120 ops) over {open, CONNECT,'
                 ' enter/leave/close_room, client DISCONNECT, server '
@@ -590,14 +684,19 @@ def run(ctx):
     ctx.require('emit_race_schedules', 50)
     ctx.require('self_race_schedules', 20)
     c03_sched.run_part(ctx, (ctx.budget or 30) * 0.2)
+    ctx.require('abandoned_emits_judged', 10)
     k = 0
     while not ctx.out_of_time() and not ctx.too_many_violations():
         run_case(ctx, k)
         ctx.count('histories')
+        if k % 25 == 3:
+            abandoned_emit_case(ctx, k // 25 + ctx.shard * 10 ** 5)
         k += 1
 
 
 def replay(ctx, w):
+    if w['witness'].get('part') == 'abandoned_emit':
+        return abandoned_emit_case(ctx, w['witness']['case_index'])
     if w['witness'].get('part') in ('emit_race', 'self_race'):
         from checks import c03_sched
         return c03_sched.replay(ctx, w)
